@@ -124,8 +124,106 @@ pub fn run(ctx: &Ctx) -> Outcome {
         }
         out.parts.push(p);
     }
+    // (3) socket event sequences with cancelled accepts / connects: no table entry without a connection
+    out.merge(crate::props::sockets::c08_leaks(ctx));
+    // (4) a chatty peer after close: the connection still ends within the bound (solo)
+    out.merge(chatty_peer(ctx));
     out.rule = "C08: fault plans on the closing packets by deviation bounding over 3-cycle runs under a connection limit of 1; abort points enumerated exhaustively; distinct_nontrivial = executions with distinct timed traces".into();
     out.assumptions.push("'bounded time' = 3 s configured inactivity timeout + 6.2 s RTO back-off sum + 1 s final chance + 1 s slack after the application let go".into());
     out.assumptions.push("connection-object lifetime and the connection-table size are read through the verif hooks (H4/H5); the 3-cycle reconnect under max_live_vsocks=1 confirms slot release without hooks".into());
+    out
+}
+
+/// "Under any network behaviour": after the application let go, a scripted peer keeps delivering a
+/// packet every 400 ms (well below the 1 s final-chance timer). The connection object must still end
+/// within the release bound. Linear scenarios enumerated over close kind x packet kind x gap.
+fn chatty_peer(ctx: &Ctx) -> Outcome {
+    use crate::solo::{bfs, world::*};
+    let mut out = Outcome::default();
+    let def = WndSpec::Default;
+    let closes: Vec<(&str, Vec<Act>)> = vec![
+        ("shutdown", vec![Act::Write(5), Act::Shutdown]),
+        ("drop-both", vec![Act::Write(5), Act::DropWriter, Act::DropReader]),
+        ("drop-both-acked", vec![Act::Write(5), Act::Deliver(Pkt::State { ack: AckSpec::All, wnd: def, sack: SackSpec::None }), Act::DropReader, Act::DropWriter]),
+    ];
+    let chatter: Vec<(&str, Pkt)> = vec![
+        ("dup-ack", Pkt::State { ack: AckSpec::Cur, wnd: def, sack: SackSpec::None }),
+        ("stale-ack", Pkt::State { ack: AckSpec::Stale, wnd: def, sack: SackSpec::None }),
+        ("data", Pkt::Data { off: 0, ack: AckSpec::Cur, wnd: def }),
+        ("dup-data", Pkt::Data { off: -1, ack: AckSpec::Cur, wnd: def }),
+        ("far-data", Pkt::DataLen { off: 1025, len: 3 }),
+        ("syn", Pkt::Syn),
+    ];
+    let mut part = Part::fe("solo:chatty-peer-after-close");
+    let mut seen = std::collections::HashSet::new();
+    for (cname, close) in &closes {
+        for (pname, pkt) in &chatter {
+            for gap in [400u64, 900] {
+                let mut cfg = SoloCfg::tiny(10);
+                cfg.inactivity_ms = 3_000;
+                cfg.peer_lens = vec![3];
+                let mut actions = close.clone();
+                // the release bound (11.2 s) worth of chatter and a bit more
+                let rounds = (13_000 / gap) as usize;
+                for _ in 0..rounds {
+                    actions.push(Act::Wait(gap));
+                    actions.push(Act::Deliver(pkt.clone()));
+                }
+                let d = bfs::Driver { name: format!("chatty-{cname}-{pname}-{gap}ms"), cfg: cfg.clone(), prefix: vec![], alphabet: actions.clone(), depth: 0, state_cap: 0 };
+                // linear execution: history = 0,1,2,...; stop when an action is no longer applicable (connection gone)
+                let mut end_t: Option<u64> = None;
+                let mut let_go_t: Option<u64> = None;
+                let hist: Vec<u8> = (0..actions.len().min(250) as u8).collect();
+                // find the longest applicable prefix
+                let mut lo = close.len();
+                let mut hi = hist.len();
+                while lo < hi {
+                    let mid = (lo + hi + 1) / 2;
+                    if bfs::execute(&d, &hist[..mid], false).is_some() {
+                        lo = mid;
+                    } else {
+                        hi = mid - 1;
+                    }
+                }
+                if let Some((_, Some((w, _)))) = bfs::execute(&d, &hist[..lo], true) {
+                    part.evaluations += 1;
+                    seen.insert(w.trace.len() * 1000 + w.trace.iter().map(|r| r.emitted.len()).sum::<usize>());
+                    for r in &w.trace {
+                        if let_go_t.is_none() && r.step > 0 && r.step as usize == close.len() {
+                            let_go_t = Some(r.t_us);
+                        }
+                        if end_t.is_none() && r.obs_after.is_none() {
+                            end_t = Some(r.t_us);
+                        }
+                    }
+                    let lg = let_go_t.unwrap_or(0);
+                    let alive_at_end = w.done.is_none();
+                    let last_t = w.trace.last().map(|r| r.t_us).unwrap_or(0);
+                    let late = match end_t {
+                        Some(t) => t > lg + RELEASE_BOUND_US,
+                        None => alive_at_end && last_t > lg + RELEASE_BOUND_US,
+                    };
+                    if late {
+                        out.violations.push(Violation {
+                            property: "C08".into(),
+                            monitor: "termination".into(),
+                            signature: "termination/chatty-peer-keeps-closed-connection-alive".into(),
+                            detail: format!("[{}] the application let go at {} us; a peer that keeps sending '{}' every {} ms kept the connection object alive until {:?} (run ended at {} us; bound {} us)", d.name, lg, pname, gap, end_t, last_t, RELEASE_BOUND_US),
+                            replay: bfs::replay_json(&d, &hist[..lo]),
+                        });
+                    }
+                }
+            }
+        }
+    }
+    part.distinct_nontrivial = seen.len() as u64;
+    part.distinct_outcomes = seen.len() as u64;
+    part.bound = "3 ways of letting go x 6 kinds of peer chatter x gaps {400 ms, 900 ms}, chatter continued for 13 s of virtual time".into();
+    part.samples.push(json!({"close": "drop-both", "chatter": "dup-ack", "gap_ms": 400}));
+    // de-duplicate violations by signature (keep the first)
+    let mut sigs = std::collections::BTreeSet::new();
+    out.violations.retain(|v| sigs.insert(v.signature.clone()));
+    out.parts.push(part);
+    let _ = ctx;
     out
 }
